@@ -23,6 +23,9 @@ use crate::{
 #[derive(Debug, Clone, Serialize, Deserialize)]
 pub struct RunSpec {
     pub ok: bool,
+    /// (failed runs) the run fails by panicking instead of returning an error
+    #[serde(default)]
+    pub panics: bool,
     /// virtual seconds the run takes
     pub duration: u16,
     /// SIGHUPs during the waiting interval that follows this run, as fractions (0..65535) of the
@@ -121,6 +124,7 @@ fn run_loop(case: &Case) -> Result<(Vec<(u64, u64)>, Option<Result<(), String>>,
                     let start = t0.elapsed().as_millis() as u64;
                     let spec = specs.get(i).cloned().unwrap_or(RunSpec {
                         ok: true,
+                        panics: false,
                         duration: 0,
                         sighup_at: None,
                     });
@@ -130,6 +134,9 @@ fn run_loop(case: &Case) -> Result<(Vec<(u64, u64)>, Option<Result<(), String>>,
                     let _ = done_tx.send((i, end));
                     if spec.ok {
                         Ok(())
+                    } else if spec.panics {
+                        // a run that dies (the real job spawns tasks and unwraps their results)
+                        std::panic::resume_unwind(Box::new("scripted panic of the run"))
                     } else {
                         Err(anyhow::anyhow!("scripted failure"))
                     }
@@ -369,6 +376,7 @@ impl Prop for C19 {
     fn fixed_cases(&self) -> Vec<Case> {
         let f = |ok: bool| RunSpec {
             ok,
+            panics: false,
             duration: 5,
             sighup_at: None,
         };
@@ -406,9 +414,11 @@ impl Prop for C19 {
                     prop::bool::weighted(0.45),
                     prop_oneof![Just(0u16), 0u16..300],
                     prop::option::weighted(0.2, any::<u16>()),
+                    prop::bool::weighted(0.25),
                 )
-                    .prop_map(|(ok, duration, sighup_at)| RunSpec {
+                    .prop_map(|(ok, duration, sighup_at, panics)| RunSpec {
                         ok,
+                        panics: panics && !ok,
                         duration,
                         sighup_at,
                     }),
